@@ -548,6 +548,19 @@ def generate_coordinates_rule(ctx, rep, rule="distinct"):
             rounds = (head, elem)
         else:
             gap = (head, elem, src)
+    slots = None
+    if not rounds:
+        # `for (r, slot) in coordinates.iter_mut().enumerate()`: the rounds are the slots of the
+        # coordinate list itself - r counts 0.. in step with the slots, all of them are visited
+        # (the list is exclusively borrowed by the loop, nothing else can write it meanwhile)
+        for head, (elem, src, lp) in fi.items():
+            if util.is_call(src, "std::iter::Iterator::enumerate") and util.is_call(strip(src[2][0]), "core::slice::<impl [T]>::iter_mut") and (lp["resolved"] or "").startswith("<std::iter::Enumerate<I> as std::iter::Iterator>::next"):
+                im = strip(src[2][0])
+                old_ = se.call_old.get((im[3][:2], 0))
+                la = (se.term_info.get(im[3][1], {}).get("locargs") or (("?",),))[0]
+                if old_ is not None and util.is_call(strip(old_), "std::vec::from_elem") and la[0] == "ref" and la[1][0] == "local":
+                    slots = {"im": im, "old": strip(old_), "loc": la[1], "elem": elem}
+                    rounds = (head, ("field", elem, 0))
     if not rounds:
         cp = countdown_pick(ctx, se)
         if cp is not None and init_l is not None:
@@ -603,10 +616,21 @@ def generate_coordinates_rule(ctx, rep, rule="distinct"):
             table = (key, ph, init, step)
         elif util.is_call(si, "std::vec::from_elem"):
             coords = (key, ph, init, step)
+    if slots is not None:
+        # the one store through the slot reference is the write of coordinates[r]
+        sk = [k for k in rst if k[0] == "deref" and strip(k[1]) == ("field", slots["elem"], 1)]
+        wr = [(loc, v) for (bi, si_), (loc, v) in se.assigns.items() if loc[0] == "deref" and strip(loc[1]) == ("field", slots["elem"], 1)]
+        coords = None
+        if len(sk) == 1 and len(wr) == 1:
+            cph = ("coords-before-round",)
+            coords = (slots["loc"], cph, slots["old"], ("upd", cph, ("i", rounds[1]), rst[sk[0]][1]))
     if not (seed and coords and table):
         rep.violation(rule, fn, "shape", "round state is not (seed, coordinates, table)", body.loc())
         return
     env = {seed[1]: "seed", coords[1]: "C", table[1]: "T", rounds[1]: "r"}
+    if slots is not None and N(slots["old"][2][1], {}) == ("param", 3):
+        # r < len(coordinates) = challenge_count, a u8: `r as u8` is r
+        env[("cast", "IntToInt", rounds[1], "u8")] = "r"
     cnt = ("sub", size, S("r"))
     pick = ("rem", S("seed"), cnt)
     got = {
@@ -669,4 +693,9 @@ def generate_coordinates_rule(ctx, rep, rule="distinct"):
     good = exits == {(fi_r["switch_bb"], fi_r["exit_bb"])}
     rep.check(good, rule, fn, "no-early-exit", "the rounds loop is left only when all challenge_count rounds are drawn", "the rounds loop has additional exits %s (rounds may be skipped or filled differently)" % sorted(exits), body.loc())
     r = strip(se.ret)
-    rep.check(r == coords[1], rule, fn, "result", "the drawn coordinates are returned", "the returned vector is not the coordinate list", body.loc())
+    if slots is not None:
+        # the list as the slot loop left it: the value the vector had before, after `iter_mut` at that site
+        res_ok = r[0] == "after" and util.is_call(r[1]) and r[1][3] == slots["im"][3] and r[2] == 0 and strip(r[3]) == slots["old"]
+    else:
+        res_ok = r == coords[1]
+    rep.check(res_ok, rule, fn, "result", "the drawn coordinates are returned", "the returned vector is not the coordinate list", body.loc())
